@@ -287,7 +287,7 @@ class SymCtx:
                     continue
                 ng = z3.Not(gg)
                 for lname, hyps in (('lin', lin), ('full', full)):
-                    if lname == 'full' and len(lin) == len(full):
+                    if mult == 1 and lname == 'full' and len(lin) == len(full):
                         continue
                     if mult > 1 and lname == 'lin':
                         continue
